@@ -61,6 +61,38 @@ def expand(ctx, k):
     return {k}
 
 
+def idle_path(loop):
+    """description of a path through the loop body that reaches the next iteration without a consuming parser call
+    (a handler that swallows the failure of the read and carries on), or None"""
+    from ..paths import TooManyPaths, paths
+
+    def consumes(st):
+        if isinstance(st, tuple):
+            return False
+        for n in ast.walk(st):
+            if isinstance(n, ast.Call) and isinstance(n.func, ast.Attribute) and (n.func.attr.startswith('parse') or n.func.attr.startswith('_parse')):
+                return True
+        return False
+    try:
+        ps = paths(loop.body)
+    except TooManyPaths:
+        return None
+    for stmts, how in ps:
+        if how in ('return', 'raise'):
+            continue
+        if stmts and isinstance(stmts[-1], ast.Break):
+            continue
+        if any(isinstance(st, ast.Break) for st in stmts if not isinstance(st, tuple)):
+            continue
+        if not any(consumes(st) for st in stmts):
+            hs = [st for st in stmts if isinstance(st, tuple) and st[0] == 'except']
+            if hs:
+                return 'handler `except %s` at line %s continues the loop' % (
+                    ast.unparse(hs[0][1].type) if hs[0][1].type is not None else '', hs[0][1].lineno)
+            return 'a branch of the body reads nothing'
+    return None
+
+
 def check(ctx, report):
     model = ctx.model
     report.rule('C19.R1', 'class containment graph acyclic (bounded recursion depth)')
@@ -143,6 +175,12 @@ def check(ctx, report):
                     if not consuming:
                         report.add('C19.R2', '%s@loop[%s]' % (f.construct, show(n.iterable)[:40]),
                                    'loop bounded by an input derived value does not consume input: work proportional to a declared count')
+                if derived and body_ops and isinstance(n.node, (ast.For, ast.While)):
+                    idle = idle_path(n.node)
+                    if idle:
+                        report.add('C19.R2', '%s@loop[%s]/idle-path' % (f.construct, show(n.iterable)[:40]),
+                                   'loop bounded by an input derived value has a path that goes round without consuming input (%s): '
+                                   'work proportional to a declared count' % idle)
                 if n.how == 'while' and not body_ops and not loop_reassigns(n.node) and not exits:
                     report.add('C19.R4', '%s@while[%s]' % (f.construct, show(n.iterable)[:40]), 'loop neither consumes input nor changes its condition')
     # ---- R4 container items
